@@ -80,7 +80,7 @@ def run_shard(spec, acc):
     maps = pref_maps(rng)
     long_lived = [NMEA2000Decoder(preferred_units=lib_map) for lib_map, _ in maps]
     order = []
-    for rnd in range(2 if quick else 6):
+    for rnd in range(2 if quick else 20):
         shuffled = list(defs)
         rng.shuffle(shuffled)
         order += shuffled
